@@ -1,7 +1,7 @@
 (* Totality: the uniquifying loop of register always terminates within the model's fuel
    (pigeonhole), and rendering never panics except for the three recorded causes
    (unsupported literal type, Values(Dict, x...), a nil item rendered as the root). *)
-From Jen Require Import Base.Bytes Base.Num Base.Sort Model.Code Model.Naming Model.Render Gen.Tables.
+From Jen Require Import Base.Bytes Base.Num Base.Sort Model.Code Model.Naming Model.Render Model.FileRender Gen.Tables.
 From Jen Require Import Proofs.NamingProofs Proofs.RenderProofs.
 From Coq Require Import Lia Permutation ZifyBool ZifyN ZifyNat.
 Local Open Scope bool_scope.
@@ -688,7 +688,7 @@ Section Exact.
   Proof. reflexivity. Qed.
 
   Lemma forallb_null_ext t t' l : dext cfg t t' -> forallb (is_null cfg t') l = forallb (is_null cfg t) l.
-  Proof. intros H. apply forallb_eq_in. intros x _. apply is_null_ext. exact H. Qed.
+  Proof. intros H. apply forallb_eq_in. intros x _. apply is_null_dext. exact H. Qed.
 
   Lemma reach_ext t t' c : dext cfg t t' -> reach t' c = reach t c.
   Proof.
@@ -847,3 +847,122 @@ Section Exact.
     - split; [reflexivity | intros _; exists m; reflexivity].
   Qed.
 End Exact.
+
+(* ------------------------------------------------------------------ File.Render and the formatter *)
+(* The NoFormat bypass is the only difference between the two modes, safe bodies never
+   panic, successful output is the formatter's output (lemmas behind Props/C02.v). *)
+Lemma formatted_is_fmt_of_raw : forall fmt wf f,
+  let f1 := set_noformat f true in
+  let f0 := set_noformat f false in
+  file_raw f1 = file_raw f /\ file_raw f0 = file_raw f /\
+  f_imports (fst (file_render fmt wf f1)) = f_imports (fst (file_render fmt wf f0)) /\
+  match file_raw f with
+  | Panic m => snd (file_render fmt wf f1) = OPanic m /\ snd (file_render fmt wf f0) = OPanic m
+  | Ok (t, raw) =>
+    f_imports (fst (file_render fmt wf f0)) = t /\
+    snd (file_render fmt wf f1) = OWrite raw (wf 1%nat) /\
+    (forall o b, snd (file_render fmt wf f0) = OWrite o b <-> fmt raw = Some o /\ b = wf 1%nat) /\
+    (forall r, snd (file_render fmt wf f0) = OFormatErr r <-> fmt raw = None /\ r = raw)
+  end.
+Proof.
+  intros fmt wf f f1 f0.
+  assert (H1 : file_raw f1 = file_raw f) by reflexivity.
+  assert (H0 : file_raw f0 = file_raw f) by reflexivity.
+  split; [exact H1|]. split; [exact H0|].
+  unfold file_render. rewrite H1, H0.
+  destruct (file_raw f) as [[t raw]|m]; cbn [fst snd f_imports set_imports]; [|auto].
+  split; [reflexivity|]. split; [reflexivity|]. split; [reflexivity|].
+  unfold emit. cbn [f_noformat f0 set_noformat].
+  destruct (fmt raw) as [o'|]; split; intros; split; intros H;
+    try discriminate; try (destruct H; discriminate).
+  - injection H as <- <-. split; reflexivity.
+  - destruct H as [H ->]. injection H as <-. reflexivity.
+  - injection H as <-. split; reflexivity.
+  - destruct H as [_ ->]. reflexivity.
+Qed.
+
+Lemma fragment_is_fmt_of_raw : forall fmt wf c f b,
+  code_render_with_file fmt wf c (set_noformat f b) =
+    (set_noformat (fst (code_render_with_file fmt wf c f)) b, snd (code_render_with_file fmt wf c f)) /\
+  match render (file_cfg f) false (f_imports f) c with
+  | Panic m => snd (code_render_with_file fmt wf c f) = OPanic m
+  | Ok (t, raw) =>
+    f_imports (fst (code_render_with_file fmt wf c f)) = t /\
+    (forall o b, snd (code_render_with_file fmt wf c f) = OWrite o b <-> fmt raw = Some o /\ b = wf 1%nat) /\
+    (forall r, snd (code_render_with_file fmt wf c f) = OFormatErr r <-> fmt raw = None /\ r = raw)
+  end.
+Proof.
+  intros fmt wf c f b. unfold code_render_with_file.
+  change (file_cfg (set_noformat f b)) with (file_cfg f).
+  change (f_imports (set_noformat f b)) with (f_imports f).
+  destruct (render (file_cfg f) false (f_imports f) c) as [[t raw]|m]; cbn [fst snd]; [|split; reflexivity].
+  split; [reflexivity|]. split; [reflexivity|].
+  unfold emit. destruct (fmt raw) as [o'|]; split; intros; split; intros H;
+    try discriminate; try (destruct H; discriminate).
+  - injection H as <- <-. split; reflexivity.
+  - destruct H as [H ->]. injection H as <-. reflexivity.
+  - injection H as <-. split; reflexivity.
+  - destruct H as [_ ->]. reflexivity.
+Qed.
+
+Lemma invalid_is_error_not_panic : forall fmt wf f,
+  forallb safe_in (f_items f) = true ->
+  exists t raw, file_raw f = Ok (t, raw) /\
+    f_imports (fst (file_render fmt wf f)) = t /\
+    (forall m, snd (file_render fmt wf f) <> OPanic m) /\
+    ((f_noformat f = true /\ snd (file_render fmt wf f) = OWrite raw (wf 1%nat)) \/
+     (f_noformat f = false /\ exists o, fmt raw = Some o /\ snd (file_render fmt wf f) = OWrite o (wf 1%nat)) \/
+     (f_noformat f = false /\ fmt raw = None /\ snd (file_render fmt wf f) = OFormatErr raw)).
+Proof.
+  intros fmt wf f Hs.
+  assert (Hg : safe (file_group f) = true) by (apply safe_group; [exact Hs | reflexivity]).
+  destruct (safe_total (file_cfg f) _ Hg false (f_imports f)) as (t1 & s & E).
+  exists t1, (file_head f ++ render_imports t1 (f_cgo f) ++ s).
+  assert (Hr : file_raw f = Ok (t1, file_head f ++ render_imports t1 (f_cgo f) ++ s))
+    by (unfold file_raw; rewrite E; reflexivity).
+  split; [exact Hr|]. unfold file_render. rewrite Hr. cbn [fst snd f_imports set_imports].
+  split; [reflexivity|]. unfold emit.
+  destruct (f_noformat f); [split; [discriminate | left; split; reflexivity]|].
+  destruct (fmt (file_head f ++ render_imports t1 (f_cgo f) ++ s)) as [o|] eqn:Ef.
+  - split; [discriminate|]. right. left. split; [reflexivity|]. exists o. split; reflexivity.
+  - split; [discriminate|]. right. right. split; [reflexivity|]. split; reflexivity.
+Qed.
+
+Lemma invalid_fragment_is_error_not_panic : forall fmt wf c f,
+  safe c = true ->
+  exists t raw, render (file_cfg f) false (f_imports f) c = Ok (t, raw) /\
+    (forall m, snd (code_render_with_file fmt wf c f) <> OPanic m) /\
+    ((exists o, fmt raw = Some o /\ snd (code_render_with_file fmt wf c f) = OWrite o (wf 1%nat)) \/
+     (fmt raw = None /\ snd (code_render_with_file fmt wf c f) = OFormatErr raw)).
+Proof.
+  intros fmt wf c f Hs.
+  destruct (safe_total (file_cfg f) _ Hs false (f_imports f)) as (t1 & s & E).
+  exists t1, s. split; [exact E|]. unfold code_render_with_file. rewrite E. cbn [snd]. unfold emit.
+  destruct (fmt s) as [o|] eqn:Ef.
+  - split; [discriminate|]. left. exists o. split; reflexivity.
+  - split; [discriminate|]. right. split; reflexivity.
+Qed.
+
+Section Parses.
+  Variable fmt : str -> option str.
+  Variable wf : nat -> bool.
+  Variable parses : str -> Prop.
+  Hypothesis fmt_sound : forall s o, fmt s = Some o -> parses o.
+
+  Lemma success_parses : forall f o b,
+    f_noformat f = false -> snd (file_render fmt wf f) = OWrite o b -> parses o.
+  Proof.
+    intros f o b Hn. unfold file_render. destruct (file_raw f) as [[t raw]|m]; cbn [snd]; [|discriminate].
+    unfold emit. rewrite Hn. destruct (fmt raw) as [o'|] eqn:Ef; [|discriminate].
+    intros H. injection H as <- _. eapply fmt_sound. exact Ef.
+  Qed.
+
+  Lemma fragment_success_parses : forall c f o b,
+    snd (code_render_with_file fmt wf c f) = OWrite o b -> parses o.
+  Proof.
+    intros c f o b. unfold code_render_with_file.
+    destruct (render (file_cfg f) false (f_imports f) c) as [[t raw]|m]; cbn [snd]; [|discriminate].
+    unfold emit. destruct (fmt raw) as [o'|] eqn:Ef; [|discriminate].
+    intros H. injection H as <- _. eapply fmt_sound. exact Ef.
+  Qed.
+End Parses.
